@@ -391,6 +391,9 @@ func (e *Engine) checkRegistry(s *Sys) *Violation {
 		}
 	}
 	rids := ecs.ResourceIDs(w)
+	if e.extraRes && s.Name == "primary" {
+		rids = rids[:len(s.resOrder)]
+	}
 	if len(rids) != len(s.resOrder) {
 		return e.v(s, "registry", "ResourceIDs has %d entries, %d registered", len(rids), len(s.resOrder))
 	}
